@@ -51,6 +51,10 @@ func options(full bool) []option {
 		// with proj4js only (C09): the ellipsoid change loses up to 21 km of
 		// ellipsoidal height, which no two-dimensional round trip survives
 		{"sphere+datum=WGS84", "+a=6378137 +b=6378137 +datum=WGS84", true, 1, 0},
+		// two ellipsoids with the same flattening and different axes, both declared
+		// equivalent to WGS84 (compared with proj4js only, like the sphere above)
+		{"zero-shift:bessel", "+ellps=bessel +towgs84=0,0,0", true, 1, 0},
+		{"zero-shift:bess_nam", "+ellps=bess_nam +towgs84=0,0,0", true, 1, 0},
 		{"sphere", "+a=6370997 +b=6370997", false, 1, 0},
 		// pairs of options that interact: a prime meridian together with a datum
 		// shift, and a 7-term shift whose translations are zero
@@ -253,7 +257,7 @@ func Lattice(full bool) []Def {
 			d := Def{
 				Name: pa.proj + "|" + pa.text + "|" + o.label, Proj: pa.proj, Params: pa.text, Ellps: o.text,
 				Proj4: pa.text + " " + o.text, Geo: geo, HasDatum: o.hasDatum, ToMeter: o.toMeter, Pm: o.pm, Option: o.label,
-				C09Only: o.label == "sphere+datum=WGS84",
+				C09Only: o.label == "sphere+datum=WGS84" || strings.HasPrefix(o.label, "zero-shift:"),
 			}
 			// positions are given relative to Greenwich; the central meridian of a
 			// definition with +pm is relative to that prime meridian
